@@ -347,6 +347,15 @@ def check_xy(case, ds, fig, kind, xname, multi, extra, opts):
                             f"colours in different series")
             if kind == "lineplot":
                 all_colors.append((i, mcolors.to_rgba(art.get_color())))
+            elif not extra.get("c") and len(ref[0]):
+                # one colour per series, whatever the number of points
+                art.update_scalarmappable()
+                fcs = np.asarray(art.get_facecolors(), float)
+                require(len(fcs) >= 1 and np.allclose(fcs, fcs[0]),
+                        "scatter-series-colour",
+                        lambda: f"series {i} ({len(ref[0])} points) is drawn "
+                                f"with several colours: {fcs.tolist()!r:.300}")
+                all_colors.append((i, tuple(fcs[0][:3]) + (1.0,)))
         if kind == "lineplot" and "y_err" in extra:
             segs = [c for c in ax.collections
                     if type(c).__name__ == "LineCollection"]
@@ -362,7 +371,9 @@ def check_xy(case, ds, fig, kind, xname, multi, extra, opts):
                         "errorbar-data", f"series {i} error bars")
     # ---- colours from z or from the colour variable
     use_c = kind == "lineplot" and extra.get("c")
-    if kind == "lineplot" and (case.get("colors") is True or use_c) \
+    if kind == "scatter" and extra.get("c"):
+        all_colors = []
+    if all_colors and (case.get("colors") is True or use_c) \
             and not multi:
         vals = ds["cz"].values.tolist() if use_c else zs
         if isinstance(vals[0], str):
@@ -373,7 +384,8 @@ def check_xy(case, ds, fig, kind, xname, multi, extra, opts):
         for (i, got) in all_colors:
             if name is not None:
                 want = named_cmap(name, case.get("colormap_reverse"))(rel[i])
-                require(np.allclose(got, want, atol=1e-9), "line-colour",
+                require(np.allclose(got[:3], want[:3], atol=1e-9),
+                        "line-colour",
                         f"series {i} (value {vals[i]!r}) has colour "
                         f"{tuple(round(g, 4) for g in got)}, the map "
                         f"{name} at {rel[i]:.4f} is "
@@ -382,14 +394,15 @@ def check_xy(case, ds, fig, kind, xname, multi, extra, opts):
         for (i, a), (j, b) in itertools.combinations(all_colors, 2):
             same_val = abs(rel[i] - rel[j]) < 1e-12
             if same_val:
-                require(np.allclose(a, b, atol=1e-9), "line-colour-relation",
+                require(np.allclose(a[:3], b[:3], atol=1e-9),
+                        "line-colour-relation",
                         f"series {i} and {j} have the same value but "
                         f"different colours")
-    if isinstance(case.get("colors"), list) and kind == "lineplot" \
-            and not use_c:
+    if isinstance(case.get("colors"), list) and all_colors and not use_c:
         for (i, got) in all_colors:
             want = mcolors.to_rgba(case["colors"][i % len(case["colors"])])
-            require(np.allclose(got, want, atol=1e-9), "explicit-colour",
+            require(np.allclose(got[:3], want[:3], atol=1e-9),
+                    "explicit-colour",
                     f"series {i}: colour {got} vs requested {want}")
 
 
